@@ -47,9 +47,11 @@ class Triangle(Domain):
 
     def _get_volume(self, params=Points.empty(), device="cpu"):
         _, _, _, dir_1, _, dir_3 = self._construct_triangle(params, device=device)
-        # volume equals the determinate of the matrix [dir_1, dir_2] / 2
+        # volume equals the absolute value of the determinate of the matrix
+        # [dir_1, dir_2] / 2 (the determinate itself is negative if the corners
+        # are ordered clockwise)
         volume = -dir_1[:, :1] * dir_3[:, 1:] + dir_1[:, 1:] * dir_3[:, :1]
-        return volume / 2.0
+        return torch.abs(volume) / 2.0
 
     def _construct_triangle(self, params=Points.empty(), device="cpu"):
         origin = self.origin(params, device).reshape(-1, 2)
